@@ -6,6 +6,7 @@ From Boltons Require Import Lib.Prelude Spec.C09_Spec Model.C09_Model.
 From Boltons Require Import Proofs.C09_Strip Proofs.C09_Chunked Proofs.C09_Split Proofs.C09_Group.
 From Boltons Require Import Proofs.C09_Windowed Proofs.C09_Ranges Proofs.C09_Redundant Proofs.C09_WsLaws.
 From Boltons Require Import Model.C09_PyRanges Proofs.C09_PyRangesProof Gen.C09_Gen Proofs.C09_GenTie.
+From Boltons Require Import Gen.C09_Src Proofs.C09_SrcLoops.
 
 (* ======================= chunked / chunked_iter ========================== *)
 (* for every input, every size >= 1 and every fill: the generator terminates
@@ -264,7 +265,8 @@ Print Assumptions C09_redundant_exactly_repeated_keys.
    ranges: are no longer than chunk_size and lie inside the input; start at
    input_offset and end at input_offset + input_size; each begins exactly
    overlap_size before the previous end; with align every begin after the
-   first is a multiple of chunk_size - overlap_size; cover every index *)
+   first is a multiple of chunk_size - overlap_size; cover every index; only
+   the last range reaches the end and none is empty unless the input is *)
 Theorem C09_chunk_ranges_good :
   forall size chunk offset overlap align,
     valid_ranges_params size chunk offset overlap = true ->
@@ -336,3 +338,34 @@ Example C09_chunk_ranges_source_ex :
   run_generator (fuel_for 15) gen_chunk_ranges_prog (env0 15 5 3 1 true)
   = Ok [(3, 5); (4, 9); (8, 13); (12, 17); (16, 18)]%Z.
 Proof. reflexivity. Qed.
+
+(* ===== (T) the SOURCE of the scanner loops, translated on every run ========= *)
+(* coq/Gen/C09_Src.v holds the loops of split_iter, unique_iter and bucketize
+   as harness/translators/c09_loops.py reads them from /repo's current source
+   (the argument-dispatch preludes are compared literally).  They are the
+   model loops, for all inputs - so the theorems above (str.split semantics,
+   first occurrences, exactly-one-bucket) hold of the translated source. *)
+Theorem C09_split_iter_source_is_model :
+  forall sep maxsplit src,
+    Gsplit_iter src (sep_pred sep) (is_sep_none sep)
+                (match maxsplit with None => true | Some _ => false end)
+                (match maxsplit with None => 0 | Some k => k end)
+    = m_split sep maxsplit src.
+Proof. exact gen_split_is_model. Qed.
+Print Assumptions C09_split_iter_source_is_model.
+
+Theorem C09_unique_iter_source_is_model :
+  forall src key, Gunique_iter src key = m_unique key src.
+Proof. exact gen_unique_is_model. Qed.
+Print Assumptions C09_unique_iter_source_is_model.
+
+Theorem C09_bucketize_source_is_model :
+  forall src key vt kf_none kf,
+    Gbucketize src key vt kf_none kf = m_bucketize key vt (fun k => kf_none || kf k) src.
+Proof. exact gen_bucketize_is_model. Qed.
+Print Assumptions C09_bucketize_source_is_model.
+
+Example C09_split_iter_source_ex :
+  Gsplit_iter [1; 0; 0; 2; 0; 3; 0] (Nat.eqb 0) true false 1 = [[1]; [2; 0; 3; 0]]
+  /\ Gunique_iter [1; 2; 1; 3; 2] (fun x => x) = [1; 2; 3].
+Proof. split; reflexivity. Qed.
